@@ -164,7 +164,7 @@ class Baulking(O.Monitor):
             if e is None:
                 rep("baulk-decision-observed", {"customer": ind_id})
                 continue
-            _, te, nid, ind, pop_node, pop_sys, at_exit, rectype = e
+            _, te, nid, ind, pop_node, pop_sys, at_exit, rectype = e[:8]
             if n != pop_node or truth != pop_node:
                 rep("baulking-function-sees-true-population", {"customer": ind_id, "passed": n, "true": pop_node})
             baulked = at_exit and rectype == "baulk"
